@@ -138,15 +138,17 @@ let run ~seed ~tier oc =
                                        "\\{{ a ~ b }} and \\{{ d }}" |])
     done;
     let v = "EO1" ^ Buffer.contents buf ^ "EO2" in
-    let src = match rint r 8 with
-      | 0 -> "{% if 1 %}" ^ v ^ "{% endif %}"
-      | 1 -> "{% for i in [1, 2] %}" ^ v ^ "{% endfor %}"
-      | 2 -> "{% block blk %}" ^ v ^ "{% endblock %}"
-      | 3 | 4 -> "{% macro m(a, b) %}" ^ v ^ "{% endmacro %}{{ m('ARGVAL1', 'ARGVAL2') }}"
-      | 5 -> "{% macro m(a) %}{% if a %}" ^ v ^ "{% endif %}{% endmacro %}{{ _self.m('ARGVAL1') }}"
-      | 6 -> "{% set a = 'CTXVAL9' %}" ^ v
-      | _ -> "pre " ^ v ^ " post" in
-    emit oc (Ob [ "stream", JS "literal-in-construct"; "src", JS (hex src); "lex", JS "n/a"; "body_marker", JS (hex "EO1") ])
+    (* what the text is once the escaping backslashes are gone (the listed known finding): every other byte stays *)
+    let v' = List.fold_left (fun acc (a, b) -> Str_compat.replace_all acc a b) v [ ("\\{{", "{{"); ("\\{%", "{%"); ("\\{#", "{#") ] in
+    let (src, exact) = match rint r 8 with
+      | 0 -> ("{% if 1 %}" ^ v ^ "{% endif %}", v')
+      | 1 -> ("{% for i in [1, 2] %}" ^ v ^ "{% endfor %}", v' ^ v')
+      | 2 -> ("{% block blk %}" ^ v ^ "{% endblock %}", v')
+      | 3 | 4 -> ("{% macro m(a, b) %}" ^ v ^ "{% endmacro %}{{ m('ARGVAL1', 'ARGVAL2') }}", v')
+      | 5 -> ("{% macro m(a) %}{% if a %}" ^ v ^ "{% endif %}{% endmacro %}{{ _self.m('ARGVAL1') }}", v')
+      | 6 -> ("{% set a = 'CTXVAL9' %}" ^ v, v')
+      | _ -> ("pre " ^ v ^ " post", "pre " ^ v' ^ " post") in
+    emit oc (Ob [ "stream", JS "literal-in-construct"; "src", JS (hex src); "lex", JS "n/a"; "body_marker", JS (hex "EO1"); "exact", JS (hex exact) ])
   done;
   (* the listed known finding: a backslash directly before an opener *)
   List.iter (fun (src, out) -> emit_src oc "known:backslash-before-opener" src [ "out", JS (hex out); "demanded", JS (hex src) ])
